@@ -94,6 +94,15 @@ pub fn run(op: &str, v: &Value) -> Value {
     if op == "d_proof_params" {
         return run_params(v);
     }
+    if op == "d_domain_gen" {
+        // create_domain_proof_generator: the verifier-chosen pseudonym / commitment base of a domain is the hash-to-curve image
+        // of the domain string (no known log relative to G or to another domain's base)
+        use elliptic_curve::hash2curve::ExpandMsgXmd;
+        let d = hex::decode(v["domain"].as_str().unwrap_or("")).unwrap_or_default();
+        let g = credx::create_domain_proof_generator(&d);
+        let h = G1Projective::hash::<ExpandMsgXmd<sha2::Sha256>>(&d, b"BLS12381G1_XMD:SHA-256_SSWU_RO_");
+        return json!({"r":"ok","same": g == h, "nontrivial": g != G1Projective::GENERATOR && !bool::from(g.is_identity())});
+    }
     let key = SecretKey(sc(&v["alpha"]));
     let pk = PublicKey::from(&key);
     let y = Element(sc(&v["y"]));
